@@ -5,10 +5,10 @@ real Server instances on real threads (end-to-end, trace validated against Serve
 import workerflow
 
 INV = ["T_C06w_TrueMeansIdle", "T_C06w_ForcedImmediate", "T_C06w_IdleImmediate", "T_C06w_GracefulWaits",
-       "T_C06w_GracefulNotEarly", "T_C01_NoCallInShutdown", "T_C01_DrainReleases"]
+       "T_C06w_GracefulNotEarly"]
 DESIGN = ["MC_worker_stop.cfg"]
 THOROUGH = ["MC_worker_stop2.cfg", "MC_worker_stop_t3.cfg"]
-NEGS = {"NEG_worker_DrainCalls.cfg": ["Steps"], "NEG_worker_GracefulRepliesEarly.cfg": ["Steps"],
+NEGS = {"NEG_worker_GracefulRepliesEarly.cfg": ["Steps"],
         "NEG_worker_ForcedWaits.cfg": ["Steps"]}
 
 
